@@ -530,6 +530,14 @@ pub fn run(tier: &str) -> Result<Report, String> {
     for h in ["!{x}: AX {x}", "!{x}: AG EF {x}", "3{x}: @{x}: a", "V{x}: @{x}: (a | b)", "!{x}: 3{y}: (@{x}: EF {y})", "True", "False", "a"] {
         operator_lists.push(vec![h.to_string()]);
     }
+    // a long formula file: 40 different formulae, many of equal height, heights in unsorted order
+    {
+        let uns = ["~", "EX", "AX", "EF", "AF", "EG", "AG"];
+        let inn = ["a", "b", "(a & b)", "(EF a)", "(~ b)", "(a EU b)"];
+        let long: Vec<String> = (0..40).map(|i| format!("{} {}", uns[i % 7], inn[(i / 7) % 6])).collect();
+        operator_lists.push(long.clone());
+        operator_lists.push(long.into_iter().rev().collect());
+    }
     let prints = ["no-print", "summary", "with-progress", "exhaustive"];
     let mut cases: Vec<(Arc<Bound>, Case)> = vec![];
     // context sets that are not confined to the valid colours (constrained networks)
@@ -642,7 +650,7 @@ pub fn run(tier: &str) -> Result<Report, String> {
     rep.set("failure_configurations", json!(failures));
     rep.sample(json!({"network": "con2", "format": "sbml", "layout": 6, "print": "exhaustive", "-o": true, "formulae": plain_lists[1]}));
     rep.sample(json!({"formula_file_layout_6": formula_file(&plain_lists[2], 6)}));
-    rep.rule = format!("the hctl-model-checker binary built from the working tree is executed on {which:?} x model format (aeon, bnet, sbml where the format reproduces the network) x {LAYOUTS} formula-file layouts (comments, blank lines, surrounding blanks/tabs, CRLF, no final newline, mixed) x 4 print options x with/without -o (for odd layouts the output path already holds a much longer result archive of an earlier run on another model) x 4 plain + 2 extended formula lists, plus context archives whose sets are not confined to the valid colours (whole symbolic space, a raw state variable) on constrained networks, plus wide synthetic models (60 / 70 variables: counts beyond 2^53 and 2^64 must be printed as the library's numbers), plus four networks whose variable names are unusual as data (Ca_extra_cell / b_extra_1, x / xx, a / ab, EF1 / TRUE) with five formulae each, plus 24 single-operator formula files (each unary / binary / hybrid operator and pattern in a file of its own) (context archive with labels p, d, dom_1 written for the k the tool derives), plus context archives written for k-1, k+1, k+2 and 20 failure configurations, each under the default and under every print option (7 of them formula files that cannot be read or parsed completely: the tool must report a problem or evaluate every formula, never a silent prefix, and every result block it does print must carry the numbers of its own formula). Compared: order and text of Formula blocks, printed result/colour/state counts vs exact counts of the library's sets, exhaustive state listing, archive entry list, formulae.txt, every archived BDD vs model_check_multiple_(extended_)formulae_dirty; failures must produce a message and no crash. distinct_nontrivial = executed configurations");
+    rep.rule = format!("the hctl-model-checker binary built from the working tree is executed on {which:?} x model format (aeon, bnet, sbml where the format reproduces the network) x {LAYOUTS} formula-file layouts (comments, blank lines, surrounding blanks/tabs, CRLF, no final newline, mixed) x 4 print options x with/without -o (for odd layouts the output path already holds a much longer result archive of an earlier run on another model) x 4 plain + 2 extended formula lists, plus context archives whose sets are not confined to the valid colours (whole symbolic space, a raw state variable) on constrained networks, plus wide synthetic models (60 / 70 variables: counts beyond 2^53 and 2^64 must be printed as the library's numbers), plus four networks whose variable names are unusual as data (Ca_extra_cell / b_extra_1, x / xx, a / ab, EF1 / TRUE) with five formulae each, plus 24 single-operator formula files (each unary / binary / hybrid operator and pattern in a file of its own) and two formula files with 40 formulae of tied, unsorted heights (context archive with labels p, d, dom_1 written for the k the tool derives), plus context archives written for k-1, k+1, k+2 and 20 failure configurations, each under the default and under every print option (7 of them formula files that cannot be read or parsed completely: the tool must report a problem or evaluate every formula, never a silent prefix, and every result block it does print must carry the numbers of its own formula). Compared: order and text of Formula blocks, printed result/colour/state counts vs exact counts of the library's sets, exhaustive state listing, archive entry list, formulae.txt, every archived BDD vs model_check_multiple_(extended_)formulae_dirty; failures must produce a message and no crash. distinct_nontrivial = executed configurations");
     rep.assumptions.push("counts are compared with exact cardinalities computed from the point-wise read-back of the library's sets on valid colours".into());
     Ok(rep)
 }
